@@ -72,8 +72,9 @@ FieldFails(e, g) ==
   LET m == DecRx(g.raw).m IN
   (IF g.port = wire[e.dst].ports.data[2] THEN {} ELSE {"C12.ports"})
   \cup (IF m.ver = e.ver THEN {} ELSE {"C10.version-of-recipient"})
-  \cup (IF Len(g.raw) = RxHdrLen(m.ver) + Len(e.bits) + (IF m.ver = 0 THEN 2 ELSE 0)
-           /\ (m.ver = 0 => SubSeq(g.raw, Len(g.raw) - 1, Len(g.raw)) = <<0, 0>>) THEN {} ELSE {"C10.legacy-padding"})
+  \cup (IF e.kind = "none" \/ (/\ Len(g.raw) = RxHdrLen(m.ver) + Len(e.bits) + (IF m.ver = 0 THEN 2 ELSE 0)
+                                /\ (m.ver = 0 => SubSeq(g.raw, Len(g.raw) - 1, Len(g.raw)) = <<0, 0>>))
+        THEN {} ELSE {"C10.legacy-padding"})
   \cup (IF e.kind = "none" THEN {"C18.suppressed-burst-sent-on-v0"} ELSE {})
   \cup (IF e.kind # "nope" THEN {}
         ELSE IF m.ver >= 1 /\ m.nope /\ ~m.burst.has /\ m.rssi = -110 /\ m.toa = 0 /\ m.ci = -30 THEN {} ELSE {"C18.nope-indication"})
@@ -86,15 +87,17 @@ FieldFails(e, g) ==
                         \cup (IF InWin(m.ci, e.ci) THEN {} ELSE {"C10.ci"})))
 
 \* Expected and observed deliveries are aligned in order.  An expected entry that
-\* must not be sent (invalid message, C13) only matches a datagram that carries
-\* exactly its values; a burst suppressed on a version-0 link matches any
-\* datagram for its slot.
+\* must not be sent (invalid message, C13) or may legitimately be absent (a
+\* randomised value of its window is invalid) only matches a datagram that
+\* carries exactly its values; a burst suppressed on a version-0 link matches
+\* any datagram for its slot.
 RECURSIVE Align(_, _)
 Align(exp, got) ==
   IF exp = <<>> THEN (IF got = <<>> THEN {} ELSE {"C02.unexpected-delivery"})
   ELSE LET e == exp[1] IN
        IF got # <<>> /\ SameSlot(e, got[1])
-          /\ ((MustNotSend(e) /\ e.kind # "none") => FieldFails(e, got[1]) \subseteq {"C12.ports"})
+          /\ ((~MustSend(e) /\ e.kind # "none") => FieldFails(e, got[1]) \subseteq {"C12.ports"})
+          /\ (e.kind = "none" => DecRx(got[1].raw).m.burst.bits = e.bits)
        THEN (IF MustNotSend(e) /\ e.kind # "none" THEN {"C13.invalid-message-sent"} ELSE FieldFails(e, got[1]))
             \cup Align(Tail(exp), Tail(got))
        ELSE IF MustSend(e) THEN {IF e.kind = "nope" THEN "C18.nope-missing" ELSE "C02.missing-delivery"} \cup Align(Tail(exp), got)
